@@ -25,12 +25,12 @@ def ps_axioms(ctx, name="x"):
 class Lemmas(Family):
     name = "lemma"
     qualname = "vf.proofs.lemmas:Lemmas"
-    serves = ["C01", "C02", "C03", "C04", "C05", "C06", "C07", "C08", "C09", "C14", "C15", "C16", "C19"]
+    serves = ["C01", "C02", "C03", "C04", "C05", "C06", "C07", "C08", "C09", "C11", "C12", "C14", "C15", "C16", "C19"]
     configs = ["int64"]
 
     def kinds(self):
         return ["PS-monotone", "PS-nonneg", "PS-const-on-zeros", "adjacent-sorted=>sorted", "strictly-increasing-selfmap-is-identity",
-                "same-lengths=>same-starts", "partition-point"]
+                "same-lengths=>same-starts", "partition-point", "strictly-increasing-from-the-top"]
 
     def run(self, ctx, kind):
         getattr(self, "lemma_" + kind.replace("-", "_").replace("=>", "_implies_"))(ctx)
@@ -102,6 +102,19 @@ class Lemmas(Family):
         ctx.add_index(wit, wit + 1)
         ctx.prove("step: P(k+1) with witness  w_k(j) if j < S(k) else k",
                   z3.Implies(z3.And(0 <= j, j < S(k + 1)), z3.And(0 <= wit, wit < k + 1, S(wit) <= j, j < S(wit + 1))))
+
+    def lemma_strictly_increasing_from_the_top(self, ctx):
+        """f: [0,c) -> [0,q) strictly increasing  =>  f(u) <= q - c + u   (mirror image of f(u) >= u; downward induction)"""
+        c, q = z3.Int("c"), z3.Int("q")
+        f = z3.Function("f", z3.IntSort(), z3.IntSort())
+        ctx.assume(z3.And(c >= 0, q >= 0))
+        ctx.assume_forall("range", lambda i: z3.Implies(z3.And(0 <= i, i < c), z3.And(0 <= f(i), f(i) < q)))
+        ctx.assume_forall("incr", lambda i: z3.Implies(z3.And(0 <= i, i + 1 < c), f(i) < f(i + 1)))
+        k = z3.Int("k")
+        ctx.add_index(k, k + 1, c - 1)
+        ctx.prove("base: f(c-1) <= q-1", z3.Implies(c > 0, f(c - 1) <= q - c + (c - 1)))
+        ctx.assume(z3.And(0 <= k, k + 1 < c, f(k + 1) <= q - c + k + 1))
+        ctx.prove("step (downwards): f(k) <= q - c + k", f(k) <= q - c + k)
 
     def lemma_strictly_increasing_selfmap_is_identity(self, ctx):
         """f: [0,m) -> [0,m) strictly increasing  =>  f(i) >= i  (and hence f = id together with f(i) <= m-1-(m-1-i))."""
